@@ -3,7 +3,7 @@
 # whole existing suite passes with it. usage: tools/seed_confirm.sh <worktree> <mutation-dir-name>
 wt=$1; m=$2
 cd "$wt" || exit 2
-export CARGO_TARGET_DIR=$wt/target CARGO_NET_OFFLINE=true
+export CARGO_TARGET_DIR=$wt/target CARGO_NET_OFFLINE=true TMPDIR=$wt/tmp; mkdir -p $wt/tmp
 git checkout -q -- . 
 echo "== demo without patch"; bash mutations/$m/demo.sh >/tmp/seed_demo_clean.log 2>&1; echo "exit $?"
 git apply mutations/$m/patch.diff || { echo "patch does not apply"; exit 2; }
